@@ -632,6 +632,14 @@ let run_cluster (path : string) =
           (match find_link !c f t with
            | None -> "NoLink"
            | Some i -> (match reply !c (nat_of_int i) with Some c' -> c := c'; "Replied" | None -> "Nothing"))
+        | ["drop"; f; t] ->
+          (match drop_link !c (cl_of_string f) (cl_of_string t) with
+           | (c', Some k) -> c := c'; Printf.sprintf "Dropped %d" (int_of_nat k)
+           | (_, None) -> "NoLink")
+        | ["resync"; f; t] ->
+          (match resync !c (cl_of_string f) (cl_of_string t) with
+           | Some c' -> c := c'; "Resync"
+           | None -> "NoLink")
         | ["settle"] ->
           let (c', ok) = settle (nat_of_int 200) !c in c := c'; if ok then "Settled" else "NotSettled 201"
         | ["flush"; node] ->
